@@ -8,7 +8,29 @@ import (
 	"gorgonia.org/tensor"
 )
 
+// set by opEmitter.emit for every fourth Gather / Slice case: the index tensors (indices; starts, ends,
+// axes, steps) are int32 instead of int64 -- both are legal in ONNX and accepted by the gates
+var idxAsInt32 = false
+
 func i64t(shape []int, vals []int64) tensor.Tensor {
+	if idxAsInt32 {
+		fits := true
+		for _, v := range vals {
+			if v > math.MaxInt32 || v < math.MinInt32 {
+				fits = false
+			}
+		}
+		if fits {
+			v32 := make([]int32, len(vals))
+			for i, v := range vals {
+				v32[i] = int32(v)
+			}
+			if len(shape) == 0 {
+				return tensor.New(tensor.FromScalar(v32[0]))
+			}
+			return tensor.New(tensor.WithShape(shape...), tensor.WithBacking(v32))
+		}
+	}
 	if len(shape) == 0 {
 		return tensor.New(tensor.FromScalar(vals[0]))
 	}
@@ -18,12 +40,18 @@ func i64t(shape []int, vals []int64) tensor.Tensor {
 // opEmitter: the data tensor's dtype must be the same in the run and the printed copy, so the
 // round-robin counter is frozen for the duration of one emit
 type opEmitter struct {
-	cw *caseWriter
-	k  int
+	cw   *caseWriter
+	k    int
+	also func(op string, attrs []attr, mk func() []tensor.Tensor)
 }
 
 func (e *opEmitter) emit(op string, attrs []attr, mk func() []tensor.Tensor) {
+	idxAsInt32 = (op == "Gather" || op == "Slice") && e.k%4 == 3
 	emitOp(e.cw, op, attrs, mk)
+	if e.also != nil {
+		e.also(op, attrs, mk)
+	}
+	idxAsInt32 = false
 	e.k++
 }
 
@@ -34,10 +62,40 @@ func genC08(dir, tier string, seed int64) {
 		maxRank, keep = 3, 1
 	}
 	raw := newCaseWriter(dir, "C08_ops", opHeader("CheckC08"), opFooter,
-		fmt.Sprintf("bounded-exhaustive: all data shapes of rank 1..%d with extents 1..3 x (Transpose: all permutations, non-permutations (all zeros, a repeated entry, an entry r, r+1 or -1 at every position), a too-short and a too-long perm, default; Concat: every axis in [-r-1,r] with 1..3 inputs incl. one differing extent per axis; Gather: every axis in [-r-1,r], index tensors of shape (),(1),(2),(2,2),(1,3) with positive, negative and out-of-range indices; Expand: every target shape of rank 1..3; Slice: every axis in both spellings x all (start,end) in [-d-2,d+2]^2 x steps {1,2,3,-1} + INT64 extremes + all two-axis slices of rank-2 data); index-coded data, dtype round-robin; quick tier keeps a seeded 1/%d sample of the Slice sweep of rank 3 and of Expand", maxRank, keep), tier == "thorough", 1200)
+		fmt.Sprintf("bounded-exhaustive: all data shapes of rank 1..%d with extents 1..3 x (Transpose: all permutations, non-permutations (all zeros, a repeated entry, an entry r, r+1 or -1 at every position), a too-short and a too-long perm, default; Concat: every axis in [-r-1,r] with 1..3 inputs incl. one differing extent per axis; Gather: every axis in [-r-1,r], index tensors of shape (),(1),(2),(2,2),(1,3) with positive, negative and out-of-range indices; Expand: every target shape of rank 1..3; Slice: every axis in both spellings x all (start,end) in [-d-2,d+2]^2 x steps {1,2,3,-1} + INT64 extremes + all two-axis slices of rank-2 data); index-coded data, dtype round-robin over all 14 element types, every Transpose / Concat / Gather case additionally as int64 and as float32; index tensors int32 instead of int64 in every fourth Gather / Slice case; quick tier keeps a seeded 1/%d sample of the Slice sweep of rank 3 and of Expand", maxRank, keep), tier == "thorough", 1200)
 	cw := &opEmitter{cw: raw}
 	sel := func(rk int) bool { return rk <= 2 || keep == 1 || rnd.Intn(keep) == 0 }
-	f32t := func(s []int) tensor.Tensor { return mkT(dtypes[cw.k%14], s, iota64(numel(s), 100)) }
+	// the data dtype goes round-robin over all 14; Transpose / Concat / Gather cases are emitted twice more,
+	// as int64 and as float32 (dtForce), so that every shape of theirs meets the two commonest types
+	dtForce := -1
+	f32t := func(s []int) tensor.Tensor {
+		if dtForce >= 0 {
+			return mkT(dtypes[dtForce], s, iota64(numel(s), 100))
+		}
+		return mkT(dtypes[cw.k%14], s, iota64(numel(s), 100))
+	}
+	i64idx, f32idx := -1, -1
+	for i, d := range dtypes {
+		if d == tensor.Int64 {
+			i64idx = i
+		}
+		if d == tensor.Float32 {
+			f32idx = i
+		}
+	}
+	cw.also = func(op string, attrs []attr, mk func() []tensor.Tensor) {
+		if op != "Transpose" && op != "Concat" && op != "Gather" {
+			return
+		}
+		for _, f := range []int{i64idx, f32idx} {
+			if f < 0 || f == cw.k%14 {
+				continue
+			}
+			dtForce = f
+			emitOp(cw.cw, op, attrs, mk)
+			dtForce = -1
+		}
+	}
 	_ = f32t
 	perms := map[int][][]int64{1: {{0}}, 2: {{0, 1}, {1, 0}}, 3: {{0, 1, 2}, {0, 2, 1}, {1, 0, 2}, {1, 2, 0}, {2, 0, 1}, {2, 1, 0}}}
 	shapes := shapesUpToRank(1, maxRank, []int{1, 2, 3})
